@@ -232,6 +232,14 @@ void harness(void)
     __CPROVER_assert((!allok || bytes > 8) ==> e != CO_ERR_NONE, "a stored mapping that cannot be activated is refused");
     if (e == CO_ERR_NONE && P.ObjNum == 3) { __CPROVER_assert(0, "REACH:a"); }
     if (e != CO_ERR_NONE) { __CPROVER_assert(0, "REACH:b"); }
+#elif VW_OP == 11
+    /* SYNC producer callback: zero-length frame on the CAN-ID of 1005h, only in states that allow SYNC */
+    COSyncProdSend(&V_NODE.Sync);
+    _Bool on = (V_NODE.Nmt.Allowed & CO_SYNC_ALLOWED) != 0;
+    __CPROVER_assert(N_SEND == (on ? 1 : 0), "SYNC is produced only in PRE-OPERATIONAL and OPERATIONAL");
+    __CPROVER_assert(on ==> (S_FRM.Identifier == (V_NODE.Sync.CobId & 0x1FFFFFFF) && S_FRM.DLC == 0), "SYNC frame: identifier of 1005h, no data");
+    if (on) { __CPROVER_assert(0, "REACH:a"); }
+    if (!on) { __CPROVER_assert(0, "REACH:b"); }
 #endif
     __CPROVER_assert(0, "REACH:post");
 }
